@@ -81,6 +81,8 @@ def run(rec, cfg):
     W8.two_parsers(rec, rng, corp, "C12", cfg.scale(6, 200))
     if cfg.shard == 2 % cfg.nshards:
         W8.marathon(rec, rng, "C12")
+    if cfg.shard == 3 % cfg.nshards:
+        W8.typed(rec, rng, W8.TYPED_TEXTS)
     if cfg.shard == 1 % cfg.nshards:
         deep_repeat(rec)
     # one parser per shard lives through every history of the shard (thousands of calls, hundreds
